@@ -70,6 +70,18 @@ def parse_agreement(data: bytes):
             same = (got == st) if integ == "generic" else (set(got) == set(st))
             if not same:
                 return {"clause": "entry-points-differ", "summary": f"{integ}:{entry} gives {len(got)} statements, flat {len(st)}"}
+    # grouped parsing group by group: both integrations hand out the same NUMBER of graphs / datasets (one per frame, empty
+    # ones included) holding the same statements
+    try:
+        gg = [set(T.norm_events(sink[0])) for sink in pj.parse_grouped("generic", data)]
+        rg = [set(T.norm_events(sink[0])) for sink in pj.parse_grouped("rdflib", data)]
+    except Exception as e:  # noqa: BLE001
+        return {"clause": "parser-raised", "summary": f"grouped, group by group: {type(e).__name__}: {e}"}
+    if len(gg) != len(rg):
+        return {"clause": "integrations-differ", "summary": f"grouped: generic hands out {len(gg)} sinks, rdflib {len(rg)} for the same bytes"}
+    for k, (a, b) in enumerate(zip(gg, rg)):
+        if a != b:
+            return {"clause": "integrations-differ", "summary": f"grouped: sink {k} holds {len(a)} statements with generic, {len(b)} with rdflib"}
     # with logical_type_strict=True the two integrations must take the SAME decision on the same bytes (accept or refuse),
     # and where they accept, deliver the same statements as without the flag
     for entry in ("flat", "grouped"):
